@@ -28,6 +28,10 @@ def parseBytes? (s : String) : Option (List UInt8) :=
   | 'x' :: rest => parseHexChars rest
   | _ => none
 
+/-- `-` = absent -/
+def parseOptBytes? (s : String) : Option (Option (List UInt8)) :=
+  if s == "-" then some none else (parseBytes? s).map some
+
 def hexChar (n : Nat) : Char := Char.ofNat (if n < 10 then 48 + n else 87 + n)
 
 def showBytes (b : List UInt8) : String :=
@@ -161,6 +165,18 @@ def step (d : State) (args : List String) : State × String :=
     match parseInt? h, parseBytes? v, parseNat? t with
     | some h, some v, some t => let p := proposal d.s h v t; ({ s := p.1 }, showRes p.2)
     | _, _, _ => (d, "bad-op")
+  | ["genesis", v, sv, t] =>
+    -- `InitGenesis`: current requirement, then scheduled requirement (`-` = absent); panic = rejected
+    match parseOptBytes? v, parseOptBytes? sv, parseNat? t with
+    | some v, some sv, some t => withRes (initGenesis d.s v (sv.map fun x => (x, t)))
+    | _, _, _ => (d, "bad-op")
+  | ["minhist", a, b] =>
+    -- the clause itself on two minimum-version strings observed in this order: may `b` follow `a`
+    -- (`a ≤ b`), and is `b` a version at all (an invalid minimum switches the gate off)
+    match parseBytes? a, parseBytes? b with
+    | some a, some b =>
+      (d, (if vlt b a then "decreased" else "kept") ++ (if vvalid b then " valid" else " invalid"))
+    | _, _ => (d, "bad-op")
   | ["beginblock", h] =>
     match parseInt? h with
     | some h => ({ s := beginBlock d.s h }, "ok")
